@@ -2,7 +2,10 @@
 SOURCE_COMMITS = []  # no hook commits; fix: commits are listed in known_findings.json
 NOTES = ('Technique family: machine-checked proof in Lean 4. See DESIGN.md. Every check regenerates the generated '
          'Lean sources from /repo, rebuilds the theorems, audits axioms, runs model-vs-code correspondence and a '
-         'failing-input search on the real code.')
+         'failing-input search on the real code. No hook commits exist (nothing in /repo is instrumented). Genuine '
+         'defects repaired by unguarded fix: commits in /repo (listed with the failing input in known_findings.json): '
+         '530162f, dd96fb5, a7b9e52, f840eca, 99f909c, fa487bb; recorded known findings: C05 gauss_log 15/31 tables, '
+         'C09 seam pair on one piece, C17 cache key ignores the operator configuration.')
 NOT_APPLICABLE = [
     dict(property_id='C13', reason='quantitative spectral bound (lambda_min > 0.01) on numerically assembled matrices '
          'for all meshes: no decision logic to model; needs coercivity of the heat single-layer operator plus '
